@@ -170,6 +170,14 @@ def check(repo: Repo, rep: Report) -> None:
     own2 = [s for s in sites(asub) if isinstance(s.node, ast.Assign) and method_call(s.node.value, selfs, "subscribe")]
     rep.ob("N3-auto-connect", asub, "the connect decision is taken before the subscriber is subscribed", decided_before(asub, c2, own2, set(cnts2)),
            "auto_connect tests its subscriber counter only after subscribing the observer (a re-entrant subscriber is then counted first)")
+    adis = asub.child("dispose")
+    own2_vars = {s.node.targets[0].id for s in own2 if isinstance(s.node.targets[0], ast.Name)}
+    if adis is not None:
+        others = [s for s in sites(adis) if isinstance(s.node, ast.Call) and isinstance(s.node.func, ast.Attribute) and s.node.func.attr == "dispose"
+                  and dotted(s.node.func.value) not in own2_vars]
+        rep.ob("N3-auto-connect", adis, "unsubscribing from auto_connect releases only the subscriber's own subscription", not others,
+               f"auto_connect's per-subscriber dispose also disposes {[short(o.node) for o in others]}: the connection is torn down when the "
+               f"subscribers leave, although auto_connect stays connected once the given number of subscribers arrived")
     rep.ob("N3-auto-connect", asub, "the subscriber is subscribed to the connectable", any(
         isinstance(s.node, ast.Assign) and method_call(s.node.value, selfs, "subscribe") and u(s.node.value.args[0]) == asub.params[0] for s in sites(asub)),
         "auto_connect does not subscribe its subscribers")
